@@ -190,10 +190,10 @@ func ruleTablesAgree(c *Ctx, t *tables) {
 // node levels agree with where the parser produces the node (R3.2)
 
 type nodeRole struct {
-	node     string
-	via      string // "prefix" | "infix"
-	tokens   []int64
-	method   *types.Func
+	node   string
+	via    string // "prefix" | "infix"
+	tokens []int64
+	method *types.Func
 }
 
 func (c *Ctx) nodeRoles(t *tables) []nodeRole {
@@ -682,16 +682,16 @@ func opens0pos[T any](a, b []T, f *ssa.Function) token.Pos {
 // (ECMA-262 §13 expression grammar, lowest to highest). Only order and ties are used.
 var refOrder = [][]string{
 	{"ASSIGN", "PLUS_ASSIGN", "MINUS_ASSIGN"}, // AssignmentExpression (right-assoc)
-	{"OR"},                            // LogicalORExpression
-	{"AND"},                           // LogicalANDExpression
-	{"EQ", "NOT_EQ"},                  // EqualityExpression
-	{"LT", "GT", "LTE", "GTE"},        // RelationalExpression
-	{"PLUS", "MINUS"},                 // AdditiveExpression
-	{"MULTIPLY", "DIVIDE", "MODULO"},  // MultiplicativeExpression
-	{"<unary>"},                       // UnaryExpression
-	{"INCREMENT", "DECREMENT"},        // UpdateExpression (postfix)
-	{"LPAREN"},                        // CallExpression
-	{"DOT", "LBRACKET"},               // MemberExpression (same LeftHandSide tier as calls: <= accepted)
+	{"OR"},                           // LogicalORExpression
+	{"AND"},                          // LogicalANDExpression
+	{"EQ", "NOT_EQ"},                 // EqualityExpression
+	{"LT", "GT", "LTE", "GTE"},       // RelationalExpression
+	{"PLUS", "MINUS"},                // AdditiveExpression
+	{"MULTIPLY", "DIVIDE", "MODULO"}, // MultiplicativeExpression
+	{"<unary>"},                      // UnaryExpression
+	{"INCREMENT", "DECREMENT"},       // UpdateExpression (postfix)
+	{"LPAREN"},                       // CallExpression
+	{"DOT", "LBRACKET"},              // MemberExpression (same LeftHandSide tier as calls: <= accepted)
 }
 
 func ruleRefOrder(c *Ctx, t *tables) {
